@@ -44,6 +44,19 @@ PROPS = {
                  "the model reports the scheduling point it expects at every step and it is diffed)",
                  "a10 verif hooks A/B"],
     ),
+    "C09": _ops_entry("C09", ["C09_restart_transparent", "C09_final_completion_ends_attempt",
+                              "C09_multi_interruption_with_more_surfaces_refuted",
+                              "C09_multi_restart_with_queued_results_panics_refuted"],
+                      "EINTR/ECANCELED completions"),
+    "C01": _ops_entry("C01", ["C01_inflight_implies_allocated", "C01_addresses_stable",
+                              "C01_reachable_states_well_formed"], "drops and completions"),
+    "C02": _ops_entry("C02", ["C02_outputs_refine_kernel_script", "C02_single_result_is_the_only_result",
+                              "C02_single_resolves_once", "C02_single_keeps_last_result_refuted"],
+                      "completions and polls"),
+    "C03": _ops_entry("C03", ["C03_readying_completion_wakes_latest_waker", "C03_queue_full_waiter_is_parked"],
+                      "polls with replaced wakers"),
+    "C06": _ops_entry("C06", ["C06_drop_cancels_exactly_it", "C06_cancel_targets_only_dropped",
+                              "C06_state_freed_at_most_once", "C06_dropped_state_is_reclaimed"], "drops"),
     "C05": dict(
         driver="C05",
         model="Model/CqRing.v",
